@@ -12,7 +12,7 @@ race <group>                           ⇥ races=<n> …
 cycles seed=… ops=SRSRC gate=g keys=k q=…  ⇥ S:ret,done R S:ret,done … (one observation per call of the main goroutine)
 ```
 model-canon: what the LTS of `Model/Conc.lean` allows (shutdown completes and nothing is left when the
-application keeps consuming and nobody else closes; the three defect schedules may hang);
+application keeps consuming or not, whoever closes: F13, F33 and F53 are repaired);
 verdict: the property oracle on the implementation's trace — per-poster FIFO, no duplicate, nothing
 invented, blocking posts never dropped (the queue LTS's trace conditions), Close/Suspend within the
 bound, no library goroutine left, no data race reported. -/
@@ -108,13 +108,16 @@ def step (line : String) : String :=
     let gate := ((kv rest "gate").bind String.toNat?).getD 0
     let keys := ((kv rest "keys").bind String.toNat?).getD 0
     let q := ((kv rest "q").bind String.toNat?).getD 0
-    let s0 : SSys := { qcap := if q == 0 then 1024 else q, queueLen := 1, consumer := true, inbuf := List.replicate keys (some 1),
+    let nocons := (kv rest "nocons") == some "1"
+    let s0 : SSys := { qcap := if q == 0 then 1024 else q, queueLen := 1, consumer := !nocons, inbuf := List.replicate keys (some 1),
                        da1First := da1FirstOf Gen.Conc.skeleton_Suspend, resumeClears := resumeClearsOf Gen.Conc.skeleton_Resume }
     let pol : Policy := if gate == 1 then .libFirst else .callerFirst
     let mc := " ".intercalate (session pol (400 + 40 * keys) s0 ops)
     -- the oracle (independent of the model): every Suspend and every Close returns and leaves no
     -- parser / input goroutine behind; every Resume succeeds
-    let bad := fi.find? fun o => !(o == "R" || o == "S:ret,done" || o == "C:ret,done")
+    -- (without a consumer and with a full queue an input goroutine blocked in a post legitimately
+    -- outlives Suspend — the application's next receive releases it —, never Close)
+    let bad := fi.find? fun o => !(o == "R" || o == "S:ret,done" || o == "C:ret,done" || (nocons && o == "S:ret,alive"))
     let verdict := match bad with
       | some o =>
         if o.endsWith "hang,alive" then s!"FAIL {if o.startsWith "S" then "Suspend" else "Close"} did not return within the bound ({o}, session {String.ofList ops} gate {gate})"
@@ -141,19 +144,30 @@ def step (line : String) : String :=
         ("conf=ok", if allReturned sEnd && goroutinesDone sEnd && !sEnd.panicked then "ok" else "hang")
     let verdict :=
       if out == "ok" then "ok"
+      else if out == "leak" then s!"FAIL forced schedule {kind}: a library goroutine is left after Close returned"
       else if kind == "sig" then s!"FAIL Close from the input goroutine's signal arm never completes with sequences pending (forced schedule, {out})"
       else if kind == "full" then s!"FAIL Close never returns while the event queue is full and input is pending (forced schedule, {out})"
       else s!"FAIL forced schedule {kind}: {out}"
     s!"out={pred} conf=ok\tout={out} {conf}\t{verdict}"
   | "fullclose" :: _ =>
-    -- the LTS has a stuck state here (Witness/F53): both outcomes are runs of the model
+    -- F53 repaired: the LTS has no stuck state any more (shutdown_completes has no hypothesis on the
+    -- queue or the consumer): Close returns and nothing is left
     let out := fi.headD "?"
-    let verdict := if out == "close-ok" then "ok" else s!"FAIL Close never returns while the event queue is full and input is pending ({out})"
-    s!"close-*\tclose-*\t{verdict}"
+    let leak := (kv fi "leak").getD "?"
+    let verdict :=
+      if out != "close-ok" then s!"FAIL Close never returns while the event queue is full and input is pending ({out})"
+      else if leak != "0" then s!"FAIL {leak} library goroutine(s) left after Close with a full queue (the input goroutine stays blocked in PostEventBlocking)"
+      else "ok"
+    s!"close-ok leak=0\t{out} leak={leak}\t{verdict}"
   | "sigclose" :: _ =>
+    -- F13 repaired: Close on the input goroutine completes whatever is pending
     let out := fi.headD "?"
-    let verdict := if out == "quit-ok" then "ok" else s!"FAIL Close from the input goroutine's signal arm never completes with sequences pending ({out})"
-    s!"quit-*\tquit-*\t{verdict}"
+    let leak := (kv fi "leak").getD "?"
+    let verdict :=
+      if out != "quit-ok" then s!"FAIL Close from the input goroutine's signal arm never completes with sequences pending ({out})"
+      else if leak != "0" then s!"FAIL {leak} library goroutine(s) left after Close from the signal arm"
+      else "ok"
+    s!"quit-ok leak=0\t{out} leak={leak}\t{verdict}"
   | "dblclose" :: _ =>
     let out := fi.headD "?"
     let verdict := if out == "close-ok" then "ok" else s!"FAIL concurrent Close calls: {out}"
